@@ -42,3 +42,7 @@ def run(c):
         c01.net_runs(c, ["7eq-byz2", "5w-byz"], 2, ("net:liveness", "net:panic"))
     # restarted nodes (real receive routine + file WAL + catchupReplay) inside the adversarial prefixes
     c01.net_runs(c, ["4eq-restart", "4w-restart"] + (["5w-restart"] if th else []), 40 if th else 4, ("net:liveness", "net:panic"))
+    # validator-set changes over 7 heights (+ restarts), and the default configuration in which round 1 of a height is
+    # proposed when the NewRound timeout (CreateEmptyBlocksInterval) fires
+    c01.net_runs(c, ["5w-change-restart", "4eq-wait"] + (["4eq-change", "4w-wait-restart"] if th else []), 40 if th else 3,
+                 ("net:liveness", "net:panic"))
